@@ -32,10 +32,14 @@ def make_call(nd, cls, method, n, order, dim, xc, fc, bad_size=False, steps=None
     scalar = cls == 'Derivative'
     if scalar:
         x = np.linspace(0.5, 1.5, dim)
-        if xc:
+        if xc == 2:
+            x = x + 0.25j * (np.arange(dim) == dim - 1)      # only the last element is complex
+        elif xc:
             x = x + 0.25j
         if bad_size:
             f = (lambda t: np.ones(np.size(t) + 1)) if dim > 1 or True else None
+        elif fc == 2:
+            f = lambda t: np.where(np.arange(np.size(t)) == 0, 1j, 1.0).reshape(np.shape(t)) * np.exp(t)    # only the first value is complex
         elif fc:
             f = lambda t: (1 + 1j) * np.exp(t)
         else:
@@ -43,9 +47,13 @@ def make_call(nd, cls, method, n, order, dim, xc, fc, bad_size=False, steps=None
         fsize, hsize = (dim + 1, dim) if bad_size else (dim, dim)
     else:
         x = np.linspace(0.5, 1.5, dim)
-        if xc:
+        if xc == 2:
+            x = x + 0.25j * (np.arange(dim) == dim - 1)
+        elif xc:
             x = x + 0.25j
-        if fc:
+        if fc == 2 and cls == 'Jacobian':
+            f = lambda t: np.array([np.sum(np.exp(t)), 1j * np.prod(t), np.sum(t ** 2)])     # one complex component of three
+        elif fc:
             f = lambda t: (1 + 1j) * np.sum(np.exp(t))
         else:
             f = lambda t: np.sum(np.exp(t)) + np.sum(t ** 2)
@@ -77,9 +85,11 @@ def run(ctx):
     for cls in CLASSES:
         methods = ['central', 'forward', 'backward', 'complex', 'multicomplex'] + (['central2'] if cls == 'Hessian' else [])
         for m in methods:
-            for xc in (False, True):
-                for fc in (False, True):
+            for xc in (0, 1, 2):
+                for fc in (0, 1, 2):
                     for dim in (1, 2, 3):
+                        if (xc == 2 or fc == 2) and dim == 1:
+                            continue            # "partly complex" needs two elements
                         for n in ((1, 2, 3) if cls == 'Derivative' else (1,)):
                             for order in (2, 4):
                                 if cls == 'Hessian' and order == 4:
@@ -91,7 +101,7 @@ def run(ctx):
     for (cls, m, n, order, dim, xc, fc) in rows:
         th, fs, hs = make_call(nd, cls, m, n, order, dim, xc, fc)
         thunks.append(th)
-        lines.append('outcome %s %s %d %d %d %d %d %d 100' % (cls, m, n, order, xc, fc, fs, hs))
+        lines.append('outcome %s %s %d %d %d %d %d %d 100' % (cls, m, n, order, bool(xc), bool(fc), fs, hs))
     out = run_driver(lines, 'C11t')
     for row, th, model in zip(rows, thunks, out):
         cls, m, n, order, dim, xc, fc = row
